@@ -792,7 +792,7 @@ class Sched:
     def __init__(self, ip):
         self.ip = ip; self.cv = threading.Condition(); self.reset()
     def reset(self):
-        self.threads = {0: {'done': False, 'result': None, 'waiting': None}}; self.current = 0; self.abort = None; self.nswitch = 0; self.py = []
+        self.threads = {0: {'done': False, 'result': None, 'waiting': None}}; self.current = 0; self.abort = None; self.nswitch = 0; self.py = []; self.coop = False
     def finish(self):
         if len(self.threads) > 1:
             leftover = not all(t['done'] for t in self.threads.values())
@@ -843,6 +843,23 @@ class Sched:
             self.current = nxt; self.cv.notify_all()
             while self.current != me and not self.abort: self.cv.wait()
         if self.abort: raise AbortPath()
+    def resume(self, tid):
+        """cooperative mode: run thread tid until it suspends or finishes"""
+        me = self.me()
+        if self.abort: raise AbortPath()
+        if self.threads[tid]['done']: return True
+        with self.cv:
+            self.current = tid; self.cv.notify_all()
+            while self.current != me and not self.abort: self.cv.wait()
+        if self.abort: raise AbortPath()
+        return self.threads[tid]['done']
+    def suspend(self):
+        me = self.me()
+        if self.abort: raise AbortPath()
+        with self.cv:
+            self.current = 0; self.cv.notify_all()
+            while self.current != me and not self.abort: self.cv.wait()
+        if self.abort: raise AbortPath()
     def spawn(self, closure):
         tid = len(self.threads); self.threads[tid] = {'done': False, 'result': None, 'waiting': None}
         def body():
@@ -856,7 +873,8 @@ class Sched:
                 if not self.abort: self.abort = e
             self.threads[tid]['done'] = True
             with self.cv:
-                if not self.abort:
+                if not self.abort and self.coop: self.current = 0
+                elif not self.abort:
                     r = self.runnable()
                     if not r: self.current = 0
                     else:
